@@ -39,7 +39,7 @@ def concretise(n, k, seed):
 
 
 class Adapter(object):
-  def __init__(self, n=2, ports=None, mode="stable", P=1, W=1, seed=0, real=False):
+  def __init__(self, n=2, ports=None, mode="stable", P=1, W=1, seed=0, real=False, link_timeout=None):
     """ports: {"1": [1, 2], ...} initial ports per switch (spec numbers); P, W in time units of 1/P s"""
     from harness import x10_net as xn
     self.xn = xn
@@ -51,8 +51,9 @@ class Adapter(object):
     self.port_of = {q: j + 1 for j, q in enumerate(self.pn)}
     self.P, self.W = P, W
     self.unit = 1.0 / P
+    self.real = real
     self.net = xn.FNet(self.dp, {self.dp[int(s) - 1]: [self.pn[p - 1] for p in ps] for s, ps in ports.items()},
-                       mode=mode, cycle=4.0 * W * self.unit, real_discovery=real)
+                       mode=mode, cycle=4.0 * W * self.unit, real_discovery=real, link_timeout=link_timeout)
     self.stash = None
 
   # ------------------------------------------------------------ maps
@@ -72,6 +73,10 @@ class Adapter(object):
     bad = []
     for d, msgs in sorted(net.sent_since_mark().items()):
       s = self.sw_of[d]
+      if self.real:      # the real discovery component shares the channel (flow_mod at connect, LLDP packet_outs)
+        msgs = [m for m in msgs if m["name"] not in ("FLOW_MOD", "PACKET_OUT")]
+        if not msgs:
+          continue
       names = [m["name"] for m in msgs]
       if names.count("FEATURES_REQUEST") != 1 or names[-1] != "FEATURES_REQUEST":
         bad.append("s%d:features-request:%s" % (s, ",".join(names)))
